@@ -124,11 +124,17 @@ Definition reset_subject : bytes := s2b "system.reset".
 (* Service.event: a marshal error is logged, nothing is published *)
 Definition publish (subj : bytes) (pay : option bytes) : list effect :=
   match pay with Some p => [EPublish subj p] | None => [] end.
-(* for _, cb := range r.listeners { cb(ev) } *)
+(* for _, cb := range r.listeners { cb(ev) } with listeners that only look at the event *)
 Definition notify (ls : list N) (ev : evrec) : list effect := map (fun l => EListen l ev) ls.
+Definition nf_plain (ls : list N) (ev : evrec) : outcome := (notify ls ev, None).
+(* effects so far, then what follows (whose panic, if any, unwinds the whole call) *)
+Definition finish (pre : list effect) (n : outcome) : outcome := (pre ++ fst n, snd n).
 
-(* ---- the event methods ---- *)
-Definition change_event (ty : rtype) (rid : bytes) (ls : list N) (changed : vmap)
+(* ---- the event methods; [nf ev] is the listener loop handed the event record ---- *)
+Section Methods.
+Variable nf : evrec -> outcome.
+
+Definition change_event (ty : rtype) (rid : bytes) (changed : vmap)
     (ap : apply (option vmap)) : outcome :=
   match ty with
   | TCollection => ([], Some (PWrongType KChange))
@@ -137,78 +143,77 @@ Definition change_event (ty : rtype) (rid : bytes) (ls : list N) (changed : vmap
     | [] => ([], None)                                    (* len(changed) == 0: return *)
     | _ =>
       let args := Ev n_change rid (Some changed) None VNil 0 VNil VNil in
-      let send rev := publish (subject rid n_change) (change_payload changed)
-                      ++ notify ls (Ev n_change rid (Some changed) rev VNil 0 VNil VNil) in
+      let send rev := finish (publish (subject rid n_change) (change_payload changed))
+                             (nf (Ev n_change rid (Some changed) rev VNil 0 VNil VNil)) in
       match ap with
-      | Absent => (send None, None)
+      | Absent => send None
       | Fails e => ([EApply KChange args (RFail e)], Some (PApply e))
       | Ok rev =>
         match rev with
         | Some [] => ([EApply KChange args (RChange rev)], None)   (* rev != nil && len(rev) == 0 *)
-        | _ => (EApply KChange args (RChange rev) :: send rev, None)
+        | _ => finish [EApply KChange args (RChange rev)] (send rev)
         end
       end
     end
   end.
 
-Definition add_event (ty : rtype) (rid : bytes) (ls : list N) (v : value) (idx : Z)
-    (ap : apply unit) : outcome :=
+Definition add_event (ty : rtype) (rid : bytes) (v : value) (idx : Z) (ap : apply unit) : outcome :=
   match ty with
   | TModel => ([], Some (PWrongType KAdd))
   | _ =>
     if (idx <? 0)%Z then ([], Some (PNegIdx KAdd)) else
     let args := Ev n_add rid None None v idx VNil VNil in
-    let send := publish (subject rid n_add) (add_payload v idx) ++ notify ls args in
+    let send := finish (publish (subject rid n_add) (add_payload v idx)) (nf args) in
     match ap with
-    | Absent => (send, None)
+    | Absent => send
     | Fails e => ([EApply KAdd args (RFail e)], Some (PApply e))
-    | Ok _ => (EApply KAdd args RUnit :: send, None)
+    | Ok _ => finish [EApply KAdd args RUnit] send
     end
   end.
 
-Definition remove_event (ty : rtype) (rid : bytes) (ls : list N) (idx : Z)
-    (ap : apply value) : outcome :=
+Definition remove_event (ty : rtype) (rid : bytes) (idx : Z) (ap : apply value) : outcome :=
   match ty with
   | TModel => ([], Some (PWrongType KRemove))
   | _ =>
     if (idx <? 0)%Z then ([], Some (PNegIdx KRemove)) else
     let args := Ev n_remove rid None None VNil idx VNil VNil in
-    let send v := publish (subject rid n_remove) (remove_payload idx)
-                  ++ notify ls (Ev n_remove rid None None v idx VNil VNil) in
+    let send v := finish (publish (subject rid n_remove) (remove_payload idx))
+                         (nf (Ev n_remove rid None None v idx VNil VNil)) in
     match ap with
-    | Absent => (send VNil, None)
+    | Absent => send VNil
     | Fails e => ([EApply KRemove args (RFail e)], Some (PApply e))
-    | Ok v => (EApply KRemove args (RVal v) :: send v, None)
+    | Ok v => finish [EApply KRemove args (RVal v)] (send v)
     end
   end.
 
-Definition create_event (rid : bytes) (ls : list N) (data : value) (ap : apply unit) : outcome :=
+Definition create_event (rid : bytes) (data : value) (ap : apply unit) : outcome :=
   let args := Ev n_create rid None None VNil 0 data VNil in
-  let send := publish (subject rid n_create) (Some []) ++ notify ls args in
+  let send := finish (publish (subject rid n_create) (Some [])) (nf args) in
   match ap with
-  | Absent => (send, None)
+  | Absent => send
   | Fails e => ([EApply KCreate args (RFail e)], Some (PApply e))
-  | Ok _ => (EApply KCreate args RUnit :: send, None)
+  | Ok _ => finish [EApply KCreate args RUnit] send
   end.
 
-Definition delete_event (rid : bytes) (ls : list N) (ap : apply value) : outcome :=
+Definition delete_event (rid : bytes) (ap : apply value) : outcome :=
   let args := Ev n_delete rid None None VNil 0 VNil VNil in
-  let send d := publish (subject rid n_delete) (Some [])
-                ++ notify ls (Ev n_delete rid None None VNil 0 d VNil) in
+  let send d := finish (publish (subject rid n_delete) (Some []))
+                       (nf (Ev n_delete rid None None VNil 0 d VNil)) in
   match ap with
-  | Absent => (send VNil, None)
+  | Absent => send VNil
   | Fails e => ([EApply KDelete args (RFail e)], Some (PApply e))
-  | Ok d => (EApply KDelete args (RVal d) :: send d, None)
+  | Ok d => finish [EApply KDelete args (RVal d)] (send d)
   end.
 
-Definition custom_event (rid : bytes) (ls : list N) (name : bytes) (payload : value) : outcome :=
+Definition custom_event (rid : bytes) (name : bytes) (payload : value) : outcome :=
   match reserved_msg name with
   | Some _ => ([], Some (PReserved name))
   | None =>
     if negb (is_valid_part name) then ([], Some PBadName) else
-    (publish (subject rid name) (custom_payload payload)
-     ++ notify ls (Ev name rid None None VNil 0 VNil payload), None)
+    finish (publish (subject rid name) (custom_payload payload))
+           (nf (Ev name rid None None VNil 0 VNil payload))
   end.
+End Methods.
 
 (* ---- callbacks: scripts of actions ---- *)
 Inductive action :=
@@ -227,21 +232,47 @@ Inductive action :=
    Service.With callback (a Resource has neither Timeout nor OK) *)
 Inductive ctx := CtxCall (reply : bytes) | CtxWith.
 
-Definition event_call (ty : rtype) (rid : bytes) (ls : list N) (a : action) : outcome :=
+Definition event_call_g (nf : evrec -> outcome) (ty : rtype) (rid : bytes) (a : action) : outcome :=
   match a with
-  | AChange c ap => change_event ty rid ls c ap
-  | AAdd v i ap => add_event ty rid ls v i ap
-  | ARemove i ap => remove_event ty rid ls i ap
-  | ACreate d ap => create_event rid ls d ap
-  | ADelete ap => delete_event rid ls ap
-  | ACustom n v => custom_event rid ls n v
+  | AChange c ap => change_event nf ty rid c ap
+  | AAdd v i ap => add_event nf ty rid v i ap
+  | ARemove i ap => remove_event nf ty rid i ap
+  | ACreate d ap => create_event nf rid d ap
+  | ADelete ap => delete_event nf rid ap
+  | ACustom n v => custom_event nf rid n v
   | AReaccess => ([EPublish (subject rid n_reaccess) []], None)
   | AReset => ([EPublish reset_subject (reset_payload rid)], None)
   | ATimeout _ | AReply => ([], None)
   end.
+(* listeners that only look at the event *)
+Definition event_call (ty : rtype) (rid : bytes) (ls : list N) (a : action) : outcome :=
+  event_call_g (nf_plain ls) ty rid a.
+
+(* ---- re-entrant listeners: a listener may react to an event by emitting another event on
+   ev.Resource (the same resource object) from inside the listener call.  The inner event's
+   effects happen where the Go code produces them: inside the outer listener loop, before the
+   remaining outer listeners run; a panic of the inner call unwinds the outer call too.  One
+   level: a listener does not react to an event emitted by a reaction. ---- *)
+Record lst := L { l_id : N; l_react : option action }.
+Fixpoint notify_r (inner : action -> outcome) (ls : list lst) (ev : evrec) : outcome :=
+  match ls with
+  | [] => ([], None)
+  | l :: r =>
+    match l_react l with
+    | None => finish [EListen (l_id l) ev] (notify_r inner r ev)
+    | Some a' =>
+      let i := inner a' in
+      match snd i with
+      | Some q => (EListen (l_id l) ev :: fst i, Some q)
+      | None => finish (EListen (l_id l) ev :: fst i) (notify_r inner r ev)
+      end
+    end
+  end.
+Definition event_call_r (ty : rtype) (rid : bytes) (ls : list lst) (a : action) : outcome :=
+  event_call_g (notify_r (event_call ty rid (map l_id ls)) ls) ty rid a.
 
 (* one action given the request's replied flag; returns the new flag *)
-Definition exec_action (cx : ctx) (ty : rtype) (rid : bytes) (ls : list N) (replied : bool)
+Definition exec_action (cx : ctx) (ty : rtype) (rid : bytes) (ls : list lst) (replied : bool)
     (a : action) : outcome * bool :=
   match a, cx with
   | ATimeout ms, CtxCall reply =>
@@ -252,11 +283,11 @@ Definition exec_action (cx : ctx) (ty : rtype) (rid : bytes) (ls : list N) (repl
     else (([EPublish reply ok_payload], None), true)
   | ATimeout _, CtxWith => (([], None), replied)
   | AReply, CtxWith => (([], None), replied)
-  | _, _ => (event_call ty rid ls a, replied)
+  | _, _ => (event_call_r ty rid ls a, replied)
   end.
 
 (* the handler body: actions in program order until the first panic *)
-Fixpoint run_script (cx : ctx) (ty : rtype) (rid : bytes) (ls : list N) (replied : bool)
+Fixpoint run_script (cx : ctx) (ty : rtype) (rid : bytes) (ls : list lst) (replied : bool)
     (s : list action) : list effect * bool * option panic :=
   match s with
   | [] => ([], replied, None)
@@ -310,13 +341,13 @@ Definition closing (cx : ctx) (replied : bool) (p : option panic) : list effect 
     else [EPublish reply (match p with Some q => error_payload q | None => missing_payload end)]
   end.
 
-Definition run_callback (cx : ctx) (ty : rtype) (rid : bytes) (ls : list N) (s : list action)
+Definition run_callback (cx : ctx) (ty : rtype) (rid : bytes) (ls : list lst) (s : list action)
     : list effect * option panic :=
   let '(e, r, p) := run_script cx ty rid ls false s in (e ++ closing cx r p, p).
 
 (* ---- a group: callbacks executed one after the other on the group's worker ---- *)
 Record callback := CB {
-  cb_ctx : ctx; cb_ty : rtype; cb_rid : bytes; cb_ls : list N; cb_script : list action }.
+  cb_ctx : ctx; cb_ty : rtype; cb_rid : bytes; cb_ls : list lst; cb_script : list action }.
 Definition run_cb (cb : callback) : list effect * option panic :=
   run_callback (cb_ctx cb) (cb_ty cb) (cb_rid cb) (cb_ls cb) (cb_script cb).
 (* the worker appends each callback's effects to the log, in queue order *)
